@@ -544,6 +544,8 @@ type FuncSpec struct {
 	Pure     bool
 	Params   []SParam // for ext/iface specs: parameter names
 	Locals   []localDecl // local variables (declaration order, with types) when the contract was written
+	Decl     string // name-free signature of the function when the contract was written
+	RenamedFrom string
 	Sig      []string // names of receiver and parameters when the contract was written (contract names survive a renaming)
 	Results  []string
 	File     string
@@ -611,13 +613,15 @@ type Specs struct {
 	Lemmas  map[string]*Lemma
 	Tables  []*TableSpec
 	Order   []string
+	FuncNames map[string][]string // pkg-rel -> names of all functions of the package when the contracts were written
+	Fields  map[string][]localDecl // "<pkg-rel>.<Type>" -> the fields of the struct when the contracts were written
 }
 
 func NewSpecs() *Specs {
 	return &Specs{Funcs: map[string]*FuncSpec{}, SpecFns: map[string]*SpecFn{}, Preds: map[string]*Pred{}, Lemmas: map[string]*Lemma{}}
 }
 
-var clauseKeywords = map[string]bool{"spec": true, "pred": true, "ghost": true, "lemma": true, "func": true, "sig": true, "locals": true, "iface": true,
+var clauseKeywords = map[string]bool{"spec": true, "pred": true, "ghost": true, "lemma": true, "func": true, "sig": true, "decl": true, "funcnames": true, "locals": true, "fields": true, "iface": true,
 	"extern": true, "requires": true, "ensures": true, "modifies": true, "loop": true, "at": true, "observe": true, "opaque": true,
 	"row": true, "exit": true, "entry": true, "props": true, "inline": true, "trusted": true, "table": true, "fact": true, "pure": true,
 	"params": true, "results": true, "opt": true, "just": true, "proof": true}
@@ -1184,6 +1188,28 @@ func (sp *Specs) LoadFile(path, pkgRel string) error {
 				if r = strings.TrimSpace(r); r != "" {
 					cur.Sig = append(cur.Sig, r)
 				}
+			}
+		case "decl":
+			if cur != nil {
+				cur.Decl = strings.TrimSpace(rest)
+			}
+		case "funcnames":
+			if sp.FuncNames == nil {
+				sp.FuncNames = map[string][]string{}
+			}
+			sp.FuncNames[pkgRel] = append(sp.FuncNames[pkgRel], strings.Fields(rest)...)
+		case "fields":
+			// fields <Type> name: type ;; ...   (generated: the struct's fields when the contracts were written)
+			f := strings.SplitN(rest, " ", 2)
+			if len(f) == 2 {
+				if sp.Fields == nil {
+					sp.Fields = map[string][]localDecl{}
+				}
+				k := f[0]
+				if pkgRel != "" {
+					k = pkgRel + "." + k
+				}
+				sp.Fields[k] = parseLocals(f[1])
 			}
 		case "locals":
 			if cur == nil {
